@@ -211,9 +211,9 @@ BIN = {"+": ("add", lambda a, b: a + b), "-": ("sub", lambda a, b: a - b),
 QNAME = {"+": "add", "-": "sub", "*": "mul", "/": "div"}
 
 
-def build_cases(rng, tier, cov):
+def build_cases(rng, tier, cov, sweep=True):
     cases = []
-    per = 40 if tier == "quick" else 1500
+    per = 40 if tier == "quick" else 1000
 
     def add(variant, red, iargs, mop, margs, kind, exp, site=None, klass="", nontrivial=True):
         cases.append({"variant": variant, "red": red, "iargs": [str(x) for x in iargs], "mop": mop,
@@ -393,7 +393,7 @@ def build_cases(rng, tier, cov):
         add("q.preds", 1, flat(x, y), "q_preds", flat(x, y), "raw", "%d %d %d %d" % (fx == 0, fx == 1, fx == -1, fx == fy), nontrivial=False)
     # ---- exhaustive sweep of all pairs of small canonical fractions (every shortcut branch with small values)
     N = 4 if tier == "quick" else 12
-    small = [(n, d) for d in range(1, N + 1) for n in range(-N, N + 1) if gcd(n, d) == 1]
+    small = [(n, d) for d in range(1, N + 1) for n in range(-N, N + 1) if gcd(n, d) == 1] if sweep else []
     cov["exhaustive small fractions |n|,d <="] = N
     for x in small:
         fx = fr(x)
@@ -604,9 +604,18 @@ def main(tier, replay=None):
                 cases[-1].update(kind="cmp", exp=eval(c["exp"], {"__builtins__": {}}))
             elif c["kind"] == "throw":
                 cases[-1].update(kind="throw", exp=None)
-    else:
-        cases = directed_cases() + build_cases(rng, tier, cov)
-    ncorr = run_cases(chk, cases, himpl, drv)
+    dist = {}
+    ncorr = nored = 0
+    rounds = 1 if (replay or tier == "quick") else 4     # thorough: four batches (memory), the sweep in the first
+    for rd in range(rounds):
+        if not replay:
+            cases = (directed_cases() if rd == 0 else []) + build_cases(rng, tier, cov, sweep=(rd == 0))
+        ncorr += run_cases(chk, cases, himpl, drv)
+        for c in cases:
+            dist[c["variant"]] = dist.get(c["variant"], 0) + 1
+        nored += sum(1 for c in cases if c["red"] == 0)
+        if chk.failing or chk.broken:
+            break
     if len(chk.broken) > 20:
         chk.broken = chk.broken[:20] + [{"what": "... %d more" % (len(chk.broken) - 20), "detail": ""}]
     chk.cov["rule"] = ("every public call form (variant) of Rational / QField<Rational> x operands from a structured distribution "
@@ -614,11 +623,8 @@ def main(tier, replay=None):
                        "denominator, cross factors, opposite, equal, reciprocal, different limb counts, close values); all classes of finite doubles; "
                        "non-trivial = not a pure copy/predicate; distinct = (variant, flag, operands)")
     chk.cov["traces_validated_against_impl"] = ncorr
-    dist = {}
-    for c in cases:
-        dist[c["variant"]] = dist.get(c["variant"], 0) + 1
     chk.cov["variants"] = len(dist)
     chk.cov["distribution_by_variant"] = dist
     chk.cov["operand_classes"] = cov
-    chk.cov["noreduce_cases"] = sum(1 for c in cases if c["red"] == 0)
+    chk.cov["noreduce_cases"] = nored
     return chk.finish()
